@@ -73,6 +73,27 @@ def matrix_cases():
         out.append(bql.select([(A, None), (['fn', 'sum', [B]], 's')], ('table', 'm'), order_by=[(['col', 's'], dirs[0]), (A, dirs[1])]))
         out.append(bql.select([(A, None), (B, None), (cnt, 'n')], ('table', 'm'), order_by=[(['fn', 'max', [C]], dirs[0]), (2, dirs[1])]))
         out.append(bql.select([(cnt, 'n')], ('table', 'm'), group_by=[A, B], order_by=[(B, dirs[0]), (A, dirs[1])]))
+    # DISTINCT compares the rows, not their hashes: hash(-1) == hash(-2) and hash(-1.00) == hash(-2.00) in CPython
+    m1, m2 = ['sub', A, ['const', 'int', 1]], ['sub', ['mul', A, ['const', 'int', 0]], ['const', 'int', 2]]
+    h = ['sub', ['mod', R, ['const', 'int', 2]], ['const', 'int', 2]]                 # -2, -1, -2, -1, ...
+    hd = ['div', ['sub', ['mod', R, ['const', 'int', 2]], ['const', 'int', 2]], ['const', 'int', 1]]
+    for lim in (None, 1, 2, 3):
+        out.append(bql.select([(h, 'h')], ('table', 'm'), distinct=True, limit=lim))
+        out.append(bql.select([(hd, 'h')], ('table', 'm'), distinct=True, limit=lim))
+        out.append(bql.select([(B, None), (h, 'h')], ('table', 'm'), distinct=True, order_by=[(1, 'DESC')], limit=lim))
+        out.append(bql.select([(h, 'h'), (['fn', 'count', [['star']]], 'n')], ('table', 'm'), group_by=[1, ['mod', R, ['const', 'int', 4]]],
+                              distinct=True, limit=lim))
+    # the order of a FROM-subquery's rows is the order the outer query sees: SELECT *, top-n, DISTINCT, stable re-sort
+    for d in ('ASC', 'DESC'):
+        inner = bql.select([(A, None), (B, None), (R, None)], ('table', 'm'), order_by=[(A, d), (['neg', B], 'ASC')])
+        hidden = bql.select([(R, None), (C, None)], ('table', 'm'), order_by=[(B, d), (A, 'DESC')])
+        out.append(bql.select('*', ('subq', inner)))
+        out.append(bql.select('*', ('subq', hidden)))
+        out.append(bql.select([(['col', 'rid'], None)], ('subq', inner), limit=5))
+        out.append(bql.select([(['col', 'a'], None)], ('subq', inner), distinct=True))
+        out.append(bql.select([(['col', 'rid'], None), (['col', 'b'], None)], ('subq', inner), order_by=[(['col', 'b'], d)]))
+        out.append(bql.select([(['col', 'c'], None)], ('subq', hidden), distinct=True, limit=3))
+        out.append(bql.select('*', ('subq', bql.select('*', ('subq', inner))), limit=7))
     return [{'tables': [table], 'sel': s, 'text': bql.statement(s), 'matrix': True, 'via_ast': i % 3 != 0,
              } for i, s in enumerate(harness.force_aliases(s) for s in out)]
 
@@ -140,7 +161,7 @@ def prop_select(sh, case):
         sh.record(None, False)
         return fails
     nontrivial = False
-    if 'want' in info:
+    if 'want' in info and case['sel']['targets'] != '*':
         sel = case['sel']
         probe = dict(sel, distinct=False, limit=None)
         keys = key_exprs_of(sel)
@@ -314,6 +335,8 @@ def run(sh):
     for case in sh.mine(matrix_cases()):
         for sig, detail in prop_select(sh, case):
             sh.fail(sig, detail, case, 'matrix')
+        if case['sel']['from'][0] == 'subq':
+            continue        # the model-free chain rewrites the target list: statements over a base table only
         for sig, detail in prop_sorted(sh, case):
             sh.fail(sig, detail, case, 'sorted')
     if sh.index == 0:
